@@ -45,6 +45,23 @@ def make_function(kind, D):
             def getAnalyticSolutionIntegral(self, start, end):
                 return scale * base.getAnalyticSolutionIntegral(start, end)
         return Scaled()
+    if kind == 'multilin':
+        # component 0 drives the refinement, the others are the monomials prod_{d in S} x_d (all multilinear functions by linearity)
+        base = F.GenzCornerPeak(coeffs=np.arange(1, D + 1, dtype=float))
+        subsets = [S for r in range(D + 1) for S in itertools.combinations(range(D), r)]
+
+        class MultiLin(F.Function):
+            def output_length(self):
+                return 1 + len(subsets)
+
+            def eval(self, coordinates):
+                x = np.asarray(coordinates, dtype=float)
+                return np.concatenate([np.atleast_1d(base.eval(coordinates)), [float(np.prod([x[d] for d in S])) for S in subsets]])
+
+            def getAnalyticSolutionIntegral(self, start, end):
+                mono = [float(np.prod([(end[d] ** 2 - start[d] ** 2) / 2 if d in S else (end[d] - start[d]) for d in range(D)])) for S in subsets]
+                return np.concatenate([np.atleast_1d(base.getAnalyticSolutionIntegral(start, end)), mono])
+        return MultiLin()
     if kind == 'vector':
         fs = [F.GenzCornerPeak(coeffs=np.arange(1, D + 1, dtype=float)), F.GenzProductPeak(coefficients=np.full(D, 2.0), midpoint=np.full(D, 0.5))]
         return F.FunctionConcatenate(fs)
